@@ -409,6 +409,16 @@ func (db *DB) ReleaseRemoteHaltLock(ctx context.Context, lockID int64) (retErr e
 // This only removes the reference locally as it's assumed it has already been
 // removed on the primary.
 func (db *DB) UnsetRemoteHaltLock(ctx context.Context, lockID int64) (retErr error) {
+	return db.unsetRemoteHaltLock(ctx, lockID, false)
+}
+
+// UnsetRemoteHaltLockNoLock is the same as UnsetRemoteHaltLock except that the
+// caller must already hold the write lock on the database.
+func (db *DB) UnsetRemoteHaltLockNoLock(ctx context.Context, lockID int64) (retErr error) {
+	return db.unsetRemoteHaltLock(ctx, lockID, true)
+}
+
+func (db *DB) unsetRemoteHaltLock(ctx context.Context, lockID int64, locked bool) (retErr error) {
 	TraceLog.Printf("[UnsetRemoteHaltLock(%s)]:", db.name)
 
 	haltLock := db.remoteHaltLock.Load().(*HaltLock)
@@ -423,8 +433,13 @@ func (db *DB) UnsetRemoteHaltLock(ctx context.Context, lockID int64) (retErr err
 		TraceLog.Printf("[UnsetRemoteHaltLock.Done(%s)]: %s", db.name, errorKeyValue(retErr))
 	}()
 
-	// Checkpoint when we release the remote lock.
-	if err := db.Recover(ctx); err != nil {
+	// Checkpoint when we release the remote lock. Recover() acquires the write
+	// lock itself so it cannot be used when the caller already holds it.
+	if locked {
+		if err := db.recover(ctx); err != nil {
+			return fmt.Errorf("recovery: %w", err)
+		}
+	} else if err := db.Recover(ctx); err != nil {
 		return fmt.Errorf("recovery: %w", err)
 	}
 
